@@ -103,8 +103,10 @@ class EIG(BaseRoutine):
         spmatrix
             The reduced state matrix
         """
-        self.gyx = matrix(gx)
-        self.solver.linsolve(gy, self.gyx)
+        # use the returned solution: not every back-end solves in place, and a singular
+        # matrix is reported through the returned values (NaN), not through the argument
+        sol = self.solver.linsolve(gy, matrix(gx))
+        self.gyx = matrix(np.reshape(np.asarray(sol, dtype=float), gx.size))
 
         Tfnz = Tf + np.ones_like(Tf) * np.equal(Tf, 0.0)
         iTf = spdiag((1 / Tfnz).tolist())
@@ -514,6 +516,12 @@ class EIG(BaseRoutine):
         t1, s = elapsed()
 
         self.calc_As()
+        if not np.all(np.isfinite(np.array(matrix(self.As)))):
+            logger.error("State matrix cannot be formed: the algebraic equations, or the equations of the "
+                         "states with zero time constants, are singular at this operating point.")
+            system.exit_code += 1
+            return False
+
         self.mu, self.pfactors, self.N, self.W = self.calc_pfactor()
         self._store_stats()
         t2, s = elapsed(t1)
